@@ -201,6 +201,8 @@ def make_input_plan(T, variant, k=3, **kw):
         return ctx, StepInput(ctx)
     if variant == "nofield":
         return ctx, NoFieldInput(ctx)
+    if variant == "nested":
+        return ctx, NestedInput(ctx)
     return ctx, HistInput(ctx, k)
 
 
@@ -410,13 +412,97 @@ def nofield_main(S, env):
     return True
 
 
+# ------------------------------------------------------------------ nested discriminated roots
+class NestedInput(symval.Node):
+    """outer tag in {poly, a, zz, absent}, inner tag in {tri, zz, absent}; whether Tri exists before the first call"""
+
+    def __init__(self, ctx):
+        self.outer = ctx.sel(4)
+        self.inner = ctx.sel(3)
+        self.late = ctx.new("b", "bool")
+        self.x = ctx.new("i", "int")
+
+    def make(self, env):
+        return pick(env[self.outer], 4), pick(env[self.inner], 3), bool(env[self.late])
+
+
+def build_nested(style, late):
+    """QBase(type) <- QA('a'), QBase <- QPoly('poly', its own Config discriminator on 'kind') <- QTri(kind 'tri')"""
+    ns = lambda q, **kw: dict({"__module__": __name__, "__qualname__": q}, **kw)
+    mb = (DataClassDictMixin,)
+    disc = Discriminator(field="type", include_subtypes=True)
+    cfg_t = type("Config", (BaseConfig,), {"discriminator": Discriminator(field="type", include_subtypes=True)})
+    cfg_k = type("Config", (BaseConfig,), {"discriminator": Discriminator(field="kind", include_subtypes=True)})
+    F = dataclasses.field
+    Base = dataclasses.make_dataclass("QBase", [("x", int, F(default=0))], bases=mb,
+                                      namespace=ns("QBase", **({"Config": cfg_t} if style == "config" else {})))
+    globals()["QBase"] = Base
+    A = dataclasses.make_dataclass("QA", [("type", str, F(default="a"))], bases=(Base,), namespace=ns("QA"))
+    globals()["QA"] = A
+    Poly = dataclasses.make_dataclass("QPoly", [("type", str, F(default="poly"))], bases=(Base,), namespace=ns("QPoly", Config=cfg_k))
+    globals()["QPoly"] = Poly
+    if style == "config":
+        dec = Base.from_dict
+    elif style == "annotated":
+        H = dataclasses.make_dataclass("QHolder", [("v", typing.Annotated[Base, disc])], bases=mb, namespace=ns("QHolder"))
+        globals()["QHolder"] = H
+        dec = lambda d: H.from_dict({"v": d}).v
+    else:
+        dec = BasicDecoder(typing.Annotated[Base, disc]).decode
+    if late:
+        try:
+            dec({"type": "a", "x": 1})
+        except Exception:
+            pass
+    Tri = dataclasses.make_dataclass("QTri", [("kind", str, F(default="tri"))], bases=(Poly,), namespace=ns("QTri"))
+    globals()["QTri"] = Tri
+    return {"A": A, "Tri": Tri}, dec
+
+
+def nested_main(S, env):
+    outer, inner, late = S.node.make(env)
+    with notrace():
+        classes, dec = build_nested(S.fam_args["style"], late)
+        d = {"x": 5}
+        if outer < 3:
+            d["type"] = ("poly", "a", "zz")[outer]
+        if inner < 2:
+            d["kind"] = ("tri", "zz")[inner]
+        if outer == 3:
+            want = "missing"
+        elif outer == 2:
+            want = "notfound"
+        elif outer == 1:
+            want = classes["A"]
+        else:
+            want = (classes["Tri"], "notfound", "missing")[inner]
+        st, r = call(dec, d)
+        if st == "exc" and isinstance(r, InvalidFieldValue) and S.fam_args["style"] == "annotated":
+            r = r.__context__ or r.__cause__ or r
+        if isinstance(want, type):
+            if st != "ok" or type(r) is not want:
+                return fail("C12/nested-root:wrong-result", input=d, got=r, want=want.__name__, late=late)
+        else:
+            exp = MissingDiscriminatorError if want == "missing" else SuitableVariantNotFoundError
+            if st == "ok" or type(r) is not exp:
+                return fail("C12/nested-root:wrong-exception:%s-for-%s" % (type(r).__name__, want), input=d, got=r, late=late)
+    return True
+
+
 def main(S, env):
+    if S.variant == "nested":
+        return nested_main(S, env)
     if S.variant == "nofield":
         return nofield_main(S, env)
     return step_main(S, env) if S.variant == "step" else hist_main(S, env)
 
 
 def twin(S, env):
+    if S.variant == "nested":
+        outer, inner, late = S.node.make(env)
+        if not (outer == 0 and inner == 0 and late):
+            return True
+        return not main(S, env)
     if S.variant == "nofield":
         present, poison, hold_at, warm = S.node.make(env)
         if not (poison and present["yb"] and present["ya"] and hold_at == 1 and warm == 2):
